@@ -181,8 +181,6 @@ func (o *ObjectSchema) unserializeToStruct(rawData map[string]any) (any, error) 
 	for key, value := range rawData {
 		val := value
 		elem := reflectedValue.Elem()
-		field := elem.FieldByIndex(o.fieldCache[key].Index)
-		f := field
 		v := reflect.ValueOf(val)
 		var recoveredError error
 		func() {
@@ -196,6 +194,8 @@ func (o *ObjectSchema) unserializeToStruct(rawData map[string]any) (any, error) 
 					}
 				}
 			}()
+			field := fieldByIndexAlloc(elem, o.fieldCache[key].Index)
+			f := field
 			if field.Kind() == reflect.Pointer && v.Kind() != reflect.Pointer {
 				f = reflect.New(f.Type().Elem())
 				f.Elem().Set(v.Convert(f.Elem().Type()))
@@ -298,11 +298,13 @@ func (o *ObjectSchema) extractPropertyValue(propertyID string, v reflect.Value, 
 
 func (o *ObjectSchema) getFieldReflection(propertyID string, v reflect.Value, property *PropertySchema) *reflect.Value {
 	field := o.fieldCache[propertyID]
-	var val reflect.Value
 	if v.Kind() == reflect.Pointer {
-		val = v.Elem().FieldByName(field.Name)
-	} else {
-		val = v.FieldByName(field.Name)
+		v = v.Elem()
+	}
+	val := fieldByNameOrInvalid(v, field.Name)
+	if !val.IsValid() {
+		// A promoted field behind a nil embedded pointer is absent.
+		return nil
 	}
 	if val.Kind() == reflect.Pointer {
 		if val.IsNil() {
@@ -316,6 +318,35 @@ func (o *ObjectSchema) getFieldReflection(propertyID string, v reflect.Value, pr
 		return nil
 	}
 	return &val
+}
+
+// fieldByIndexAlloc is reflect.Value.FieldByIndex, except that it allocates nil embedded struct
+// pointers on the way to a promoted field instead of panicking.
+func fieldByIndexAlloc(v reflect.Value, index []int) reflect.Value {
+	for i, x := range index {
+		if i > 0 && v.Kind() == reflect.Pointer && v.Type().Elem().Kind() == reflect.Struct {
+			if v.IsNil() {
+				v.Set(reflect.New(v.Type().Elem()))
+			}
+			v = v.Elem()
+		}
+		v = v.Field(x)
+	}
+	return v
+}
+
+// fieldByNameOrInvalid is reflect.Value.FieldByName, except that a promoted field behind a nil
+// embedded pointer yields the zero Value instead of a panic.
+func fieldByNameOrInvalid(v reflect.Value, name string) reflect.Value {
+	structField, ok := v.Type().FieldByName(name)
+	if !ok {
+		return reflect.Value{}
+	}
+	val, err := v.FieldByIndexErr(structField.Index)
+	if err != nil {
+		return reflect.Value{}
+	}
+	return val
 }
 
 func (o *ObjectSchema) Serialize(data any) (any, error) {
